@@ -390,3 +390,110 @@ Definition oct_c11_case (xs : list (oct_api * oct_val)) : option (list Z * oct_s
 (* C12: arbitrary input bytes (stream filled by Write), arbitrary read calls *)
 Definition oct_c12_case (v : oct_variant) (input : list Z) (ops : list oct_op) : list (oct_rd oct_val) :=
   oct_run_reads v ops (oct_write oct_empty input).
+
+(* ------------------------------------------------------------------ interleaved use (C11) *)
+
+(* copy(dst, src): n = min(len(dst), len(src)) elements of src (memmove semantics: the
+   source is read as it was before the call, also when the two overlap) over dst[0:n] *)
+Definition oct_copy (dst src : list Z) : list Z :=
+  let n := Nat.min (length dst) (length src) in firstn n src ++ skipn n dst.
+
+(* func (my *OctetsStream) Tidy():
+     if my.position > 0 { copy(my.buffer, my.buffer[my.position:])
+                          my.buffer = my.buffer[:len(my.buffer)-my.position]; my.position = 0 }
+   None = a slice expression out of range (panic) *)
+Definition oct_tidy (s : oct_stream) : option oct_stream :=
+  if (0 <? oct_pos s)%nat then
+    match oct_slice_from (oct_buf s) (oct_pos s) with
+    | None => None
+    | Some src =>
+        let b1 := oct_copy (oct_buf s) src in
+        match oct_slice b1 0 (oct_len s - oct_position s) with
+        | None => None
+        | Some b2 => Some {| oct_buf := b2; oct_pos := 0 |}
+        end
+    end
+  else Some s.
+
+(* a schedule step: the next write, the next read, Tidy() *)
+Inductive oct_sop := OctSW | OctSR | OctST.
+
+(* what a step shows: the stream after a write / after Tidy; Position() before a read and
+   the read's result *)
+Inductive oct_sobs :=
+| OctObW (s : oct_stream)
+| OctObR (p0 : nat) (r : oct_rd oct_val)
+| OctObT (s : oct_stream).
+
+(* run a schedule: [ws] the values still to be written (in order), [pend] the values
+   written and not yet read (oldest first); a write takes the head of ws, a read is the
+   call matching the head of pend.  None = a write ran out of fuel, Tidy panicked, or the
+   schedule asks for a write with ws empty / a read with pend empty. *)
+Fixpoint oct_run_sched (v : oct_variant) (sch : list oct_sop) (ws pend : list (oct_api * oct_val))
+    (s : oct_stream) : option (list oct_sobs * oct_stream) :=
+  match sch with
+  | [] => Some ([], s)
+  | OctSW :: r =>
+      match ws with
+      | [] => None
+      | (a, x) :: ws' =>
+          match oct_write_val a s x with
+          | None => None
+          | Some s1 =>
+              match oct_run_sched v r ws' (pend ++ [(a, x)]) s1 with
+              | None => None
+              | Some (obs, s') => Some (OctObW s1 :: obs, s')
+              end
+          end
+      end
+  | OctSR :: r =>
+      match pend with
+      | [] => None
+      | (a, x) :: pend' =>
+          let rd := oct_read_op v (oct_op_of a x) s in
+          match oct_run_sched v r ws pend' (snd (fst rd)) with
+          | None => None
+          | Some (obs, s') => Some (OctObR (oct_pos s) rd :: obs, s')
+          end
+      end
+  | OctST :: r =>
+      match oct_tidy s with
+      | None => None
+      | Some s1 =>
+          match oct_run_sched v r ws pend s1 with
+          | None => None
+          | Some (obs, s') => Some (OctObT s1 :: obs, s')
+          end
+      end
+  end.
+
+(* FIFO discipline: at every prefix of the schedule #reads <= #writes (+ npend) and
+   #writes <= nws *)
+Fixpoint oct_fifo_from (sch : list oct_sop) (npend nws : nat) : bool :=
+  match sch with
+  | [] => true
+  | OctSW :: r => match nws with O => false | S w => oct_fifo_from r (S npend) w end
+  | OctSR :: r => match npend with O => false | S p => oct_fifo_from r p nws end
+  | OctST :: r => oct_fifo_from r npend nws
+  end.
+
+(* schedules with Tidy: n values *)
+Definition oct_fifo_sched_tidy (sch : list oct_sop) (n : nat) : bool := oct_fifo_from sch 0 n.
+
+(* schedules of writes and reads only: true = next write, false = next read *)
+Definition oct_sop_of_bool (b : bool) : oct_sop := if b then OctSW else OctSR.
+Definition oct_fifo_sched (sch : list bool) (n : nat) : bool :=
+  oct_fifo_from (map oct_sop_of_bool sch) 0 n.
+
+Definition oct_sched_writes (sch : list oct_sop) : nat :=
+  length (filter (fun o => match o with OctSW => true | _ => false end) sch).
+Definition oct_sched_reads (sch : list oct_sop) : nat :=
+  length (filter (fun o => match o with OctSR => true | _ => false end) sch).
+
+(* the reads of an observation list: (Position() before, result) *)
+Definition oct_obs_reads (obs : list oct_sobs) : list (nat * oct_rd oct_val) :=
+  flat_map (fun o => match o with OctObR p r => [(p, r)] | _ => [] end) obs.
+
+(* C11 interleaved case: the schedule on an empty stream *)
+Definition oct_c11i_case (sch : list oct_sop) (xs : list (oct_api * oct_val)) : option (list oct_sobs * oct_stream) :=
+  oct_run_sched OctFixed sch xs [] oct_empty.
